@@ -56,9 +56,10 @@ package scheduler
 // no other control's waiter list changes.
 //@ specfunc oldAnswered(c *torrentControl) bool = forall j int :: 0 <= j && j < len(old(c.errors)) ==> sent(old(c.errors)[j]) >= 1
 //@ func dispatcherCompleteEvent.apply
-//@   requires s != nil && s.torrentControls != nil && blok(s.conns)
+//@   requires s != nil && s.torrentControls != nil && blok(s.conns) && s.announceQueue != nil && e.dispatcher != nil
 //@   requires forall k core.InfoHash :: k in s.torrentControls ==> s.torrentControls[k] != nil && allocated(s.torrentControls[k])
 //@   modifies *
+//@   ensures leaves_the_queue: !(e.dispatcher.ih in s.announceQueue.rdy) && !(e.dispatcher.ih in s.announceQueue.pend)
 //@   ensures controls_kept: forall k core.InfoHash :: ((k in s.torrentControls) <==> old(k in s.torrentControls)) && s.torrentControls[k] == old(s.torrentControls[k])
 //@   ensures no_waiter_dropped: forall k core.InfoHash :: k in s.torrentControls ==> s.torrentControls[k].errors == old(s.torrentControls[k].errors) || oldAnswered(s.torrentControls[k])
 //@   assert completion_answers_every_waiter: at Producer.Produce#0 :: oldAnswered(ctrl) && len(ctrl.errors) == 0
